@@ -111,6 +111,14 @@ func runHistReplay(t *testing.T, seed int64, n int, out *Out) {
 							}
 						}
 					})
+				case "genesisRoundTrip":
+					name, _ := pre["module"].(string)
+					w.Seed(func(ctx sdk.Context) {
+						cctx, write := ctx.CacheContext()
+						if ok, _ := genesisRoundTrip(w, cctx, name); ok {
+							write()
+						}
+					})
 				case "gov":
 					bz, _ := json.Marshal(pre["msg"])
 					var msg sdk.Msg
